@@ -1,4 +1,5 @@
 import TakVerif.Proofs.SearchToy
+import TakVerif.Proofs.SearchCoverAnalyze
 
 /-! # C05 — precise search = exhaustive negamax
 
@@ -107,7 +108,7 @@ example : (match analyze Toy.game Toy.cfg Oracle.quiet 5 (Eng.new Toy.game Toy.c
 — with an evaluation that is decisive only for finished games (`EvalOK`, C18) this is "the mover has a forced win /
 is lost against best play".  `HashInj g` is the `NoCollision` hypothesis (distinct positions, distinct 64-bit
 hashes); `TableSound g s`: every entry of the table of `s` is a true bound, in the three-valued sense, for every
-position that would find it. -/
+position that would find it.  `TableGood g s` adds the depth clause used by `verdict_complete`. -/
 
 /-- **`verdict_sound`**: run any history of `Analyze` calls on one engine — any positions (related, repeated,
 unrelated), any table size from one entry up (or none), every call with its own move order and its own cancellation
@@ -128,20 +129,90 @@ theorem analyze_sound {g : Game P M} (hg : GameOK g) (he : EvalOK g) (hinj : Has
       (x.1.2.1 > Facts.winThreshold → Win g p) ∧ (x.1.2.1 < -Facts.winThreshold → Loss g p)) :=
   Search.analyze_sound hg he hinj hpr hord p s hts
 
-/-- the completeness half of the table clause — *not proved* with a table: a forced result that exists within
-the reported depth is reported as such -/
-def verdict_complete_statement (g : Game P M) (cfg : Cfg) : Prop :=
-  ∀ (h : History P M) (p : P) (o : Oracle M), (∀ x ∈ h, OrderOK x.2) → OrderOK o → NoCancel o →
-    ∀ rs s r s', runCalls g cfg h (Eng.new g cfg) = .ok (rs, s) → analyze g cfg o p s = .ok (r, s') →
-      (negamax g r.2.2.depth.toNat p > Facts.winThreshold → r.2.1 > Facts.winThreshold) ∧
-      (negamax g r.2.2.depth.toNat p < -Facts.winThreshold → r.2.1 < -Facts.winThreshold)
+/-- **`verdict_complete`** (the completeness half of the table clause): run any history of `Analyze` calls on one
+engine, as in `verdict_sound` — any positions, any table size from one entry up (or none), every call with its own
+move order and its own cancellation pattern (a flag that stays set once set: `Oracle.Monotone`) — in a precise
+configuration, then analyse an unfinished position `p` without cancelling.  If `p` is a forced win (loss) for the
+mover within the depth the call reports — `negamax` at that depth is above `WinThreshold` (below `-WinThreshold`) —
+the reported value says so.
 
-/-- **`verdict_complete_partial`**: what is proved of completeness — without a table (any engine state): the
-reported value *is* the negamax value at the reported depth (`analyze_exact`), so a forced result within that depth
-is reported.  Missing for the full statement: the `Covers` half of the table invariant (an entry of depth ≥ d with
-a non-decisive upper/exact value excludes a forced win within d; dually), which needs depth bookkeeping through
-`teSuffices` and the replacement rule; the correspondence checks it (verdict ops) on tables from 2 entries up. -/
-theorem verdict_complete_partial {g : Game P M} (hg : GameOK g) (hb : EvalBounded g) {cfg : Cfg}
+Against the earlier `verdict_complete_statement` the theorem names its hypotheses: the ones of `verdict_sound`
+(`GameOK`, `EvalOK`, `HashInj`, `Precise`, `OrderOK`), monotone cancel oracles in the history (a non-monotone
+"flag" would let an aborted subtree's placeholder value 0 reach the table), and `g.over p = false` (`Analyze` of a
+finished position searches nothing and reports value 0 at depth 0, cancelled).
+
+How: every table entry and every search result *covers* its depth (`Search.GoodE`, `Search.ResGood`: an upper/exact
+value that is not a win excludes a forced win within the entry's depth, a lower/exact value that is not a loss
+excludes a forced loss within it; decisive exact entries are used at any depth, which is sound by `verdict_sound`'s
+invariant and complete because a lost position is never won).  `Search.search_good` proves this for uncancelled
+searches, `Search.search_keeps` that a search cancelled at any point still leaves only such entries. -/
+theorem verdict_complete {g : Game P M} (hg : GameOK g) (he : EvalOK g) (hinj : HashInj g)
+    {cfg : Cfg} (hpr : Precise cfg.opts) (h : History P M) (hord : ∀ x ∈ h, OrderOK x.2)
+    (hmono : ∀ x ∈ h, x.2.Monotone) (p : P) (hov : g.over p = false) {o : Oracle M} (hnc : NoCancel o)
+    (hord' : OrderOK o) (rs : List (P × Int)) (s : Eng M) (r : List M × Int × Stats) (s' : Eng M)
+    (h1 : runCalls g cfg h (Eng.new g cfg) = .ok (rs, s)) (h2 : analyze g cfg o p s = .ok (r, s')) :
+    (negamax g r.2.2.depth.toNat p > Facts.winThreshold → r.2.1 > Facts.winThreshold) ∧
+    (negamax g r.2.2.depth.toNat p < -Facts.winThreshold → r.2.1 < -Facts.winThreshold) :=
+  runCalls_then_complete hg he hinj hpr h hord hmono p hov hnc hord' rs s r s' h1 h2
+
+/-- one uncancelled `Analyze` of an unfinished position on an engine whose table is good (sound and covering, e.g.
+filled by other means): the table stays good, and a value that is not a win (not a loss) excludes a forced win
+(loss) within the reported depth -/
+theorem analyze_complete {g : Game P M} (hg : GameOK g) (he : EvalOK g) (hinj : HashInj g)
+    {cfg : Cfg} (hpr : Precise cfg.opts) {o : Oracle M} (hnc : NoCancel o) (hord : OrderOK o) (p : P)
+    (hov : g.over p = false) (s : Eng M) (hts : TableGood g s) :
+    Sat (analyze g cfg o p s) (fun x => TableGood g x.2 ∧
+      (x.1.2.1 ≤ Facts.winThreshold → negamax g x.1.2.2.depth.toNat p ≤ Facts.winThreshold) ∧
+      (-Facts.winThreshold ≤ x.1.2.1 → -Facts.winThreshold ≤ negamax g x.1.2.2.depth.toNat p)) :=
+  analyze_covers hg he hinj hpr hnc hord p hov s hts
+
+/-- the invariant is satisfiable: a new engine's table is good (`verdict_complete` starts from it) -/
+example : TableGood Toy.game (Eng.new Toy.game { Toy.cfg with tableEntries := some 2 }) :=
+  tableGood_new Toy.evalOK _
+
+/-- a cancelled (or any other) `Analyze` keeps the table good -/
+theorem analyze_keeps_table {g : Game P M} (hg : GameOK g) (he : EvalOK g) (hinj : HashInj g)
+    {cfg : Cfg} (hpr : Precise cfg.opts) {o : Oracle M} (hm : o.Monotone) (hord : OrderOK o) (p : P) (s : Eng M)
+    (hts : TableGood g s) : Sat (analyze g cfg o p s) (fun x => TableGood g x.2) :=
+  analyze_keeps hg he hinj hpr hm hord p s hts
+
+/-- the oracle of the examples: the flag is set inside the `k`-th leaf evaluation -/
+def cancelAtLeaf (k : Nat) : Oracle Nat := { Oracle.quiet with cancel := fun _ e => decide (k ≤ e) }
+
+theorem cancelAtLeaf_monotone (k : Nat) : (cancelAtLeaf k).Monotone := by
+  intro l l' e e' _ he h
+  simp only [cancelAtLeaf, decide_eq_true_eq] at h ⊢
+  omega
+
+theorem quiet_monotone : (Oracle.quiet : Oracle Nat).Monotone := by
+  intro l l' e e' _ _ h; cases h
+
+/-- non-vacuity of `verdict_complete` on the heap game with a two-entry table: after analysing the heap 5, the
+heap 3 (cancelled in its 4th leaf) and the heap 6 (cancelled likewise), an uncancelled `Analyze` of the heap 6
+reports depth 4; the heap 6 is lost within 4 plies (`negamax 4` is `-WinBase`) and the reported value says so -/
+example :
+    (∀ x ∈ [((5 : Fin 32), (Oracle.quiet : Oracle Nat)), (3, cancelAtLeaf 4), (6, cancelAtLeaf 4)],
+      OrderOK x.2 ∧ x.2.Monotone) ∧
+    (match runCalls Toy.game { Toy.cfg with tableEntries := some 2 }
+        [(5, Oracle.quiet), (3, cancelAtLeaf 4), (6, cancelAtLeaf 4)]
+        (Eng.new Toy.game { Toy.cfg with tableEntries := some 2 }) with
+      | .ok (_, s) =>
+        (match analyze Toy.game { Toy.cfg with tableEntries := some 2 } Oracle.quiet 6 s with
+          | .ok ((_, v, st), _) => some (v, st.depth, negamax Toy.game st.depth.toNat 6)
+          | .error _ => none)
+      | .error _ => none) = some (-Facts.winBase, 4, -Facts.winBase) := by
+  refine ⟨?_, by decide⟩
+  intro x hx
+  simp only [List.mem_cons, List.not_mem_nil, or_false] at hx
+  rcases hx with rfl | rfl | rfl
+  · exact ⟨Toy.quiet_order, quiet_monotone⟩
+  · exact ⟨fun _ _ _ => Iff.rfl, cancelAtLeaf_monotone 4⟩
+  · exact ⟨fun _ _ _ => Iff.rfl, cancelAtLeaf_monotone 4⟩
+
+/-- **`verdict_complete_no_table`** (was `verdict_complete_partial`): without a table, for *any* engine state (not
+only one reached by a history from a new engine) and any evaluation within `[MinEval, MaxEval]`: the reported value
+*is* the negamax value at the reported depth (`analyze_exact`), so a forced result within that depth is reported. -/
+theorem verdict_complete_no_table {g : Game P M} (hg : GameOK g) (hb : EvalBounded g) {cfg : Cfg}
     (hpr : Precise cfg.opts) {o : Oracle M} (hnc : NoCancel o) (hord : OrderOK o)
     (p : P) (hov : g.over p = false) (hdepth : 1 ≤ cfg.depth)
     (hlive : ∀ d : Nat, 1 ≤ d → (d : Int) ≤ cfg.depth → Live g d p)
